@@ -46,6 +46,10 @@ func (a *Application) proxyHandler(w http.ResponseWriter, r *http.Request) {
 		return
 	}
 
+	if a.writeRoutingRejection(w, pr) {
+		return
+	}
+
 	a.logRequestStart(pr, len(endpoints))
 
 	// Strip the route prefix before forwarding to the backend.
@@ -305,6 +309,23 @@ func (a *Application) buildLogFields(pr *proxyRequest, duration time.Duration) [
 func (a *Application) handleEndpointError(w http.ResponseWriter, pr *proxyRequest, err error) {
 	pr.requestLogger.Error("Failed to get endpoints", "error", err)
 	http.Error(w, fmt.Sprintf("Service unavailable: %v", err), http.StatusBadGateway)
+}
+
+// writeRoutingRejection answers with the status the routing strategy computed
+// (404 model not found / 503 model unavailable) instead of letting the empty
+// endpoint list surface as a generic 502 / 404 further down.
+func (a *Application) writeRoutingRejection(w http.ResponseWriter, pr *proxyRequest) bool {
+	if pr.profile == nil || pr.profile.RoutingDecision == nil {
+		return false
+	}
+	decision := pr.profile.RoutingDecision
+	if decision.Action != ports.RoutingActionRejected || decision.StatusCode < http.StatusBadRequest {
+		return false
+	}
+	pr.requestLogger.Warn("Request rejected by model routing",
+		"model", pr.model, "strategy", decision.Strategy, "reason", decision.Reason, "status", decision.StatusCode)
+	http.Error(w, fmt.Sprintf("Model routing rejected request: %s", decision.Reason), decision.StatusCode)
+	return true
 }
 
 // only send error response if we haven't started streaming yet.
